@@ -76,7 +76,7 @@ def seg_lines(seg, d):
     return lines, rows
 
 
-VARIANT_NAMES = {1: "extra-blanks-between-code-words", 2: "extra-blanks-between-code-words", 3: "across-the-first-hour", 4: "lang-option", 5: "crlf-line-ends"}
+VARIANT_NAMES = {1: "extra-blanks-between-code-words", 2: "extra-blanks-between-code-words", 3: "across-the-first-hour", 4: "lang-option", 5: "crlf-line-ends", 6: "blank-only-separator-lines"}
 
 
 def build(segs, d, sep, gap, spacing=0):
@@ -95,6 +95,9 @@ def build(segs, d, sep, gap, spacing=0):
             out.append("")
             t += len(w) + gap
             nl += 1
+    if spacing == 6:
+        # the separator lines (and the last line of the file) hold blanks instead of being empty
+        out = [x if x else "   " for x in out] + ["  "]
     return ("\r\n" if spacing == 5 else "\n").join(out), rows
 
 
@@ -146,7 +149,7 @@ def evaluate(segs, d, sep, gap, chain, disturb=False, spacing=0):
     else:
         flat = [l for cl in got_lines for l in cl]
         for r in rows:
-            if " ".join(r.split()) not in flat:
+            if r.strip() and " ".join(r.split()) not in flat:
                 v.append(("row-split", {"row": r, "lines": got_lines, "doc": doc}))
                 break
         else:
@@ -258,7 +261,7 @@ def run_shard(d):
         for kind, det in v:
             acc.violation(f"C16/{klass}/{kind}" + ("/" + VARIANT_NAMES[spacing] if spacing else ""), {"segs": segs, "d": dd, "sep": sep, "gap": gap, "chain": chain, "klass": klass, "spacing": spacing}, det)
         if spacing == 0 and dd == 1 and gap == GAPS[0] and sep == ":":
-            for variant in (1, 2, 3, 4, 5):
+            for variant in (1, 2, 3, 4, 5, 6):
                 run(segs, dd, sep, gap, chain, klass, variant)
 
     if d["k"] == "reuse":
@@ -293,6 +296,12 @@ def run_shard(d):
                     for final_rdc in (False, True):
                         segs = [[(r, t) for r, t in zip(rows_na, texts)]] + ([[(15, "Zz")]] if final_rdc else [])
                         run([("paint", segs)], dd, ":", 30, False, "paint-on-non-adjacent-rows")
+            if n >= 2:
+                # a row that is addressed but gets no text, directly below (or above) a row with text, then a row elsewhere
+                for r0, r1, r2 in ((5, 6, 10), (10, 11, 3), (6, 5, 12), (14, 15, 1)):
+                    for dd in (1, 2):
+                        run([("paint", [[(r0, texts[0]), (r1, ""), (r2, texts[1])]])], dd, ":", 30, False, "paint-on-row-without-text")
+                        run([("paint", [[(r0, texts[0])], [(r1, ""), (r2, texts[1])]])], dd, ":", 30, False, "paint-on-row-without-text")
             for rp in rowpats:
                 for two in (False, True):
                     segs = []
